@@ -23,9 +23,10 @@ sys.path.insert(0, os.path.dirname(os.path.abspath(__file__)))
 import vlib, corelib, coresuite
 from corelib import LITE_SHAPES, gen_registry, run_h1, run_model, query_text, parse_obs, split_by_policy
 
-GROUPS = [['chk', 'chk2'], ['chk', 'vec2'], ['chk', 'map2'], ['vec', 'hash'], ['chk2', 'map2', 'vec2']]
+GROUPS = [['chk', 'chk2'], ['chk', 'vec2'], ['chk', 'map2'], ['vec', 'hash'], ['chk2', 'map2', 'vec2'], ['cmap', 'cmap2']]
 HOW = {'chk': 'basic_policy<.., checked_perfect_hash, vptr_vector, vectored_error>', 'chk2': 'chk::rebind<chk2>',
        'vec2': 'chk::rebind<vec2>::remove<type_hash>', 'map2': 'chk::rebind<map2>::remove<type_hash>::replace<vptr_placement, vptr_map<map2>>',
+       'cmap': 'basic_policy<.., vptr_map<cmap, custom map type>, vectored_error>', 'cmap2': 'cmap::rebind<cmap2>',
        'vec': 'basic_policy<.., vptr_vector, vectored_error>', 'hash': 'basic_policy<.., fast_perfect_hash, vptr_vector, vectored_error>'}
 UNREGISTERED = 50          # a class number no generated registry uses
 ERR_RE = re.compile(r'(?:\berror|resolve-error) (ALT )?(?=resolution |unknown_class |hash_search |method_table |static_)')
